@@ -121,7 +121,7 @@ static int src_convert(MPT_INTERFACE(convertable) *c, MPT_TYPE(type) type, void 
 		return MPT_ERROR(BadType);
 	}
 	if (dest) {
-		if (s->from->kind == K_LINE) memcpy(dest, s->from->data, sizeof(MPT_STRUCT(line)));
+		if (s->from->kind == K_LINE) memmove(dest, s->from->data, sizeof(MPT_STRUCT(line)));
 		else *((void **) dest) = s->from->data;
 	}
 	return id;
@@ -190,12 +190,18 @@ static void put_dump(const struct obj *ob)
 	}
 	if (!any) fputc('-', stdout);
 }
-static void result(const char *r, const struct obj *ob, long ret)
+static void result_s(const char *r, const struct obj *ob, const char *ret)
 {
 	printf("R %s | C ", r);
 	if (ob) put_dump(ob); else fputc('-', stdout);
-	if (ret < 0) printf(" | I ret=%s\n", drv_errname(ret));
-	else printf(" | I ret=%ld\n", ret);
+	printf(" | I ret=%s\n", ret);
+}
+static void result(const char *r, const struct obj *ob, long ret)
+{
+	char buf[32];
+	if (ret < 0) { result_s(r, ob, drv_errname(ret)); return; }
+	snprintf(buf, sizeof(buf), "%ld", ret);
+	result_s(r, ob, buf);
 }
 /* name operand: literal or x:<hex>; returns malloc'ed string or NULL */
 static char *parse_name(const char *w)
@@ -295,13 +301,13 @@ int main(void)
 			if (!ob || !name || !*name) { puts("bad-op"); free(name); continue; }
 			pr.name = name;
 			ret = kind_get(ob->kind, ob->data, &pr);
-			if (ret < 0) result("refused", ob, ret);
+			if (ret < 0) result_s("refused", ob, "err");
 			else {
 				printf("R ok %s=", pr.name ? pr.name : "?");
 				put_value(&pr.val);
 				fputs(" | C ", stdout);
 				put_dump(ob);
-				printf(" | I ret=%d\n", ret);
+				printf(" | I ret=ok\n");
 			}
 			free(name);
 		}
@@ -321,7 +327,7 @@ int main(void)
 			sc.from = from;
 			ret = kind_set(ob->kind, ob->data, "", &sc._conv);
 			if (ret < 0) result("refused", ob, ret);
-			else result(shares_string(ob, from) ? "ok owns=0" : "ok owns=1", ob, ret);
+			else result_s(shares_string(ob, from) ? "ok owns=0" : "ok owns=1", ob, "ok");
 		}
 		else if (!strcmp(op, "dump") && drv_nw == 3) {
 			struct obj *ob = parse_obj(drv_w[2]);
@@ -338,7 +344,7 @@ int main(void)
 			memcpy(val, dat, dlen); val[dlen] = 0;
 			ret = mpt_color_parse(&c, val);
 			free(val); free(dat);
-			if (ret < 0) printf("R refused | C - | I ret=%s\n", drv_errname(ret));
+			if (ret < 0) printf("R refused | C - | I ret=err\n");
 			else printf("R ok col:%02x%02x%02x%02x | C - | I ret=%d\n", c.red, c.green, c.blue, c.alpha, ret);
 		}
 		else puts("bad-op");
